@@ -376,12 +376,17 @@ func hasRuleFile(t []arena.PN) bool {
 // packWorker: one JSON case per stdin line, one JSON reply per stdout line.
 func packWorker() int {
 	debug.SetMaxStack(48 << 20) // make runaway recursion die quickly instead of eating 1 GB
-	base, err := os.MkdirTemp(arena.ScratchBase(), "vh-packw-")
-	if err != nil {
-		fmt.Fprintln(os.Stderr, err)
-		return 2
+	// the parent owns (and removes) the scratch directory: a worker may be killed at any time
+	base := os.Getenv("VH_PACKW_BASE")
+	if base == "" {
+		var err error
+		base, err = os.MkdirTemp(arena.ScratchBase(), "vh-packw-")
+		if err != nil {
+			fmt.Fprintln(os.Stderr, err)
+			return 2
+		}
+		defer arena.RemoveAll(base)
 	}
-	defer arena.RemoveAll(base)
 	sc := bufio.NewScanner(os.Stdin)
 	sc.Buffer(make([]byte, 1<<20), 1<<28)
 	w := bufio.NewWriter(os.Stdout)
@@ -413,18 +418,25 @@ type wproc struct {
 	in  io.WriteCloser
 	out *bufio.Reader
 	err *bytes.Buffer
+	base string
 }
 
 func startWorker() (*wproc, error) {
 	cmd := exec.Command(os.Args[0], "packw")
+	wbase, err := os.MkdirTemp(arena.ScratchBase(), "vh-packw-")
+	if err != nil {
+		return nil, err
+	}
+	cmd.Env = append(os.Environ(), "VH_PACKW_BASE="+wbase)
 	in, _ := cmd.StdinPipe()
 	out, _ := cmd.StdoutPipe()
 	eb := &bytes.Buffer{}
 	cmd.Stderr = &capWriter{buf: eb, max: 1 << 16}
 	if err := cmd.Start(); err != nil {
+		arena.RemoveAll(wbase)
 		return nil, err
 	}
-	return &wproc{cmd: cmd, in: in, out: bufio.NewReaderSize(out, 1<<20), err: eb}, nil
+	return &wproc{cmd: cmd, in: in, out: bufio.NewReaderSize(out, 1<<20), err: eb, base: wbase}, nil
 }
 
 type capWriter struct {
@@ -443,6 +455,9 @@ func (w *wproc) kill() {
 	w.in.Close()
 	w.cmd.Process.Kill()
 	w.cmd.Wait()
+	if w.base != "" {
+		arena.RemoveAll(w.base)
+	}
 }
 
 // call sends one case; returns the reply line or a synthetic status on hang/crash.
